@@ -1120,23 +1120,23 @@ func RunSliceExpr(ctx *Task, expr *ast.SliceExpr) (any, ast.DType, *errchain.PlE
 	case ast.String:
 		str := obj.(string)
 		if stepInt > 0 {
-			result := ""
+			result := make([]byte, 0, length)
 			if startInt < 0 {
 				startInt = 0
 			}
 			for i := startInt; i < endInt && i < length; i += stepInt {
-				result += string(str[i])
+				result = append(result, str[i])
 			}
-			return result, ast.String, nil
+			return string(result), ast.String, nil
 		} else {
-			result := ""
+			result := make([]byte, 0, length)
 			if startInt > length-1 {
 				startInt = length - 1
 			}
 			for i := startInt; i > endInt && i >= 0; i += stepInt {
-				result += string(str[i])
+				result = append(result, str[i])
 			}
-			return result, ast.String, nil
+			return string(result), ast.String, nil
 		}
 	default:
 		list := obj.([]any)
